@@ -137,6 +137,39 @@ def run(ctx):
                 if idx % 4001 == 0:
                     ctx.sample({"term": t, "min": to_text(t, "min"), "full": to_text(t, "full")})
     ctx.count("exhaustive_complete")
+    # ---- long chains of one operator (left associativity must hold at any length) -------
+    lengths = ctx.pick([5, 60, 100, 101, 128, 257], [5, 33, 64, 100, 101, 102, 128, 200, 257, 300])
+    j = 0
+    for op in BINOPS:
+        if op == "in":
+            continue
+        for n_operands in lengths:
+            j += 1
+            if not ctx.mine(j):
+                continue
+            for right in (False, True):
+                leaves = [T.ident("w%d" % i) for i in range(n_operands)]
+                if right:
+                    t = leaves[-1]
+                    for leaf in reversed(leaves[:-1]):
+                        t = mk(op, leaf, t)
+                else:
+                    t = leaves[0]
+                    for leaf in leaves[1:]:
+                        t = mk(op, t, leaf)
+                for mode in ("min", "full"):
+                    ctx.count("evaluations")
+                    text = to_text(t, mode)
+                    out = drive.parse_term(text)
+                    ctx.seen([op, n_operands, right, mode])
+                    if not (out[0] == "ok" and out[1] == t):
+                        ctx.fail({"operator": op, "operands": n_operands, "right_nested": right,
+                                  "mode": mode, "text_head": text[:120]},
+                                 "long %s chain of one operator is regrouped" % ("right-nested" if right else "left-deep"),
+                                 expected="the %s tree" % ("right-nested" if right else "left-deep"),
+                                 observed=out[0] if out[0] != "ok" else "a different tree",
+                                 cls="chain", sig=["chain", op, right])
+            ctx.cls("chain:%s:%d" % (op, n_operands))
     # ---- random part ----------------------------------------------------------------
     rng = ctx.rng("rand")
     o = fullgen.Opts()
